@@ -867,4 +867,389 @@ theorem qualifiers_roundtrip (loc : Str) (hloc : LocStrOk loc) (quals : List Qua
   rw [partsGo_runs _ hr1 _ hr2, runsFold_lines, lineFold_quals quals [] (by simpa using hnd)]
   simp
 
+/-! ## ORIGIN block -/
+
+/-- a sequence symbol as it is written (already lower-cased): not a digit, not a blank, not `-` -/
+def OSymOk (c : Char) : Prop := isDigitC c = false ∧ c ≠ ' ' ∧ c ≠ '-'
+def NoDashEnd (l : Str) : Prop := l.getLast? ≠ some '-'
+
+theorem stripNums_append (a b : Str) (h : NoDashEnd a) : stripNums (a ++ b) = stripNums a ++ stripNums b := by
+  induction a with
+  | nil => simp [stripNums]
+  | cons c t ih =>
+    cases t with
+    | nil =>
+      have hc : c ≠ '-' := by intro e; apply h; simp [e]
+      have hc' : (c == '-') = false := by simpa using hc
+      cases b with
+      | nil => simp [stripNums]
+      | cons d rest =>
+        simp only [List.cons_append, List.nil_append, stripNums, hc', Bool.false_and]
+        by_cases h1 : (isDigitC c || c == ' ') = true
+        · simp [h1]
+        · simp [h1]
+    | cons d rest =>
+      have ih' := ih (by
+        unfold NoDashEnd at h ⊢
+        simpa [List.getLast?_cons_cons] using h)
+      simp only [List.cons_append] at ih' ⊢
+      simp only [stripNums]
+      by_cases h1 : (isDigitC c || c == ' ') = true
+      · simp only [h1, if_true]; exact ih'
+      · simp only [h1]
+        by_cases h2 : (c == '-' && isDigitC d) = true
+        · simp only [h2, if_true]; exact ih'
+        · simp only [h2]; simp [ih']
+
+theorem stripNums_syms (s : Str) (h : ∀ c ∈ s, OSymOk c) : stripNums s = s := by
+  induction s with
+  | nil => rfl
+  | cons c t ih =>
+    obtain ⟨h1, h2, h3⟩ := h c (by simp)
+    have hb : (c == ' ') = false := by simpa using h2
+    have hd : (c == '-') = false := by simpa using h3
+    have ih' := ih (fun x hx => h x (by simp [hx]))
+    cases t with
+    | nil => simp [stripNums, h1, hb]
+    | cons d rest => simp [stripNums, h1, hb, hd, ih']
+
+theorem stripNums_blanks (n : Nat) (x : Str) : stripNums (List.replicate n ' ' ++ x) = stripNums x := by
+  induction n with
+  | zero => simp
+  | succ n ih =>
+    rw [List.replicate_succ, List.cons_append]
+    cases hx : List.replicate n ' ' ++ x with
+    | nil =>
+      have : x = [] := by
+        have := congrArg List.length hx; simp at this; cases x with | nil => rfl | cons _ _ => simp at this
+      rw [hx] at ih; subst this; simp [stripNums] at ih ⊢
+    | cons d rest =>
+      rw [hx] at ih
+      simp only [stripNums, show (isDigitC ' ' || ' ' == ' ') = true by decide, if_true]
+      exact ih
+
+theorem locDigits_isDigit : ∀ c ∈ locDigits, isDigitC c = true := by decide
+
+theorem stripNums_digits (s : Str) (h : ∀ c ∈ s, isDigitC c = true) : stripNums s = [] := by
+  induction s with
+  | nil => rfl
+  | cons c t ih =>
+    have hc := h c (by simp)
+    have ih' := ih (fun x hx => h x (by simp [hx]))
+    cases t with
+    | nil => simp [stripNums, hc]
+    | cons d rest => simp [stripNums, hc, ih']
+
+theorem stripNums_showInt (i : Int) : stripNums (showInt i) = [] ∧ NoDashEnd (showInt i) := by
+  cases i with
+  | ofNat n =>
+    have hd : ∀ c ∈ showNat n, isDigitC c = true := fun c hc => locDigits_isDigit c (showNat_chars n c hc)
+    refine ⟨stripNums_digits _ hd, ?_⟩
+    intro hl
+    have := hd '-' (List.mem_of_getLast? hl)
+    revert this; decide
+  | negSucc n =>
+    have hd : ∀ c ∈ showNat (n + 1), isDigitC c = true := fun c hc => locDigits_isDigit c (showNat_chars _ c hc)
+    obtain ⟨d, ds, hds⟩ := List.exists_cons_of_ne_nil (showNat_ne_nil (n + 1))
+    constructor
+    · show stripNums ('-' :: showNat (n + 1)) = []
+      rw [hds]
+      have hdd := hd d (by rw [hds]; simp)
+      have := stripNums_digits (d :: ds) (by rw [← hds]; exact hd)
+      simp only [stripNums, show (isDigitC '-' || '-' == ' ') = false by decide, hdd]
+      simpa using this
+    · show ('-' :: showNat (n + 1)).getLast? ≠ some '-'
+      rw [hds]
+      intro hl
+      have hm : '-' ∈ d :: ds := by
+        rw [List.getLast?_cons_cons] at hl
+        exact List.mem_of_getLast? hl
+      have := hd '-' (by rw [hds]; exact hm)
+      revert this; decide
+
+theorem stripNums_fmt9 (i : Int) : stripNums (fmt9 i) = [] ∧ NoDashEnd (fmt9 i) := by
+  obtain ⟨h1, h2⟩ := stripNums_showInt i
+  unfold fmt9
+  refine ⟨by simp only; rw [stripNums_blanks, h1], ?_⟩
+  simp only
+  unfold NoDashEnd at h2 ⊢
+  rw [List.getLast?_append]
+  cases hq : (showInt i).getLast? with
+  | none => exact absurd (List.getLast?_eq_none_iff.mp hq) (showInt_ne_nil i)
+  | some z => rw [hq] at h2; simpa using h2
+
+theorem originGo_seq (start : Int) (chunks : List Str) (hch : ∀ c ∈ chunks, c ≠ [] ∧ ∀ x ∈ c, OSymOk x) :
+    ∀ (i : Nat) (line : Str), NoDashEnd line →
+      stripNums (originGo start i chunks line).flatten = stripNums line ++ chunks.flatten := by
+  induction chunks with
+  | nil => intro i line _; simp [originGo]
+  | cons c cs ih =>
+    intro i line hl
+    obtain ⟨hcne, hcs⟩ := hch c (by simp)
+    have hcl : NoDashEnd (' ' :: c) := by
+      unfold NoDashEnd
+      obtain ⟨a, t, rfl⟩ := List.exists_cons_of_ne_nil hcne
+      intro h
+      have hm := List.mem_of_getLast? h
+      simp only [List.mem_cons] at hm
+      rcases hm with h | h
+      · revert h; decide
+      · exact (hcs '-' (by simpa using h)).2.2 rfl
+    have hsc : stripNums (' ' :: c) = c := by
+      have := stripNums_blanks 1 c
+      simp only [List.replicate_one, List.singleton_append] at this
+      rw [this, stripNums_syms c hcs]
+    have hend : ∀ l : Str, NoDashEnd (l ++ ' ' :: c) := by
+      intro l
+      unfold NoDashEnd at hcl ⊢
+      rw [List.getLast?_append]
+      cases hq : (' ' :: c).getLast? with
+      | none => simp at hq
+      | some z => rw [hq] at hcl; simpa using hcl
+    simp only [originGo]
+    split
+    · obtain ⟨f1, f2⟩ := stripNums_fmt9 (start + i)
+      simp only [List.flatten_cons]
+      rw [stripNums_append _ _ hl, ih (fun x hx => hch x (by simp [hx])) (i + 10) _ (hend _),
+        stripNums_append _ _ f2, f1, hsc]
+      simp
+    · rw [ih (fun x hx => hch x (by simp [hx])) (i + 10) _ (hend _), stripNums_append _ _ hl, hsc]
+      simp
+
+/-- **ORIGIN round trip, sequence**: any length (0, non-multiples of 10 / 60), any start. -/
+theorem origin_seq_roundtrip (start : Int) (seq : Str) (h : ∀ c ∈ lower seq, OSymOk c) :
+    originSeq (printOrigin start seq) = lower seq := by
+  unfold originSeq printOrigin
+  obtain ⟨f1, f2⟩ := stripNums_fmt9 start
+  rw [originGo_seq start (wrap 10 (lower seq)) (fun c hc =>
+      ⟨wrap_chunk_ne_nil 10 (by omega) _ c hc, fun x hx => h x (wrap_chunk_sub 10 _ c hc x hx)⟩) 0 _ f2,
+    f1, wrap_flatten 10 (by omega)]
+  simp
+
+theorem originGo_head (start : Int) (chunks : List Str) : ∀ (i : Nat) (line : Str),
+    ∃ rest tl, originGo start i chunks line = (line ++ rest) :: tl ∧ (rest = [] ∨ rest.head? = some ' ') := by
+  induction chunks with
+  | nil => intro i line; exact ⟨[], [], by simp [originGo], Or.inl rfl⟩
+  | cons c cs ih =>
+    intro i line
+    simp only [originGo]
+    split
+    · exact ⟨[], originGo start (i + 10) cs (fmt9 (start + i) ++ ' ' :: c), by simp, Or.inl rfl⟩
+    · obtain ⟨rest, tl, h1, _⟩ := ih (i + 10) (line ++ ' ' :: c)
+      exact ⟨' ' :: c ++ rest, tl, by rw [h1]; simp, Or.inr rfl⟩
+
+theorem wsSplitGo_blanks (n : Nat) (x : Str) : wsSplitGo (List.replicate n ' ' ++ x) [] = wsSplitGo x [] := by
+  induction n with
+  | zero => simp
+  | succ n ih => rw [List.replicate_succ, List.cons_append]; simp [wsSplitGo, show isSpace ' ' = true by decide, ih]
+
+/-- **ORIGIN round trip, sequence start** (negative values included). -/
+theorem origin_start_roundtrip (start : Int) (seq : Str) : originStart (printOrigin start seq) = .ok start := by
+  unfold printOrigin
+  obtain ⟨rest, tl, h1, h2⟩ := originGo_head start (wrap 10 (lower seq)) 0 (fmt9 start)
+  rw [h1]
+  have hns : ∀ c ∈ showInt start, isSpace c = false := fun c hc =>
+    locPSChars_noSpace c (locIntChars_sub c (showInt_locChars start c hc))
+  have htok : ∃ more, wsSplit (fmt9 start ++ rest) = showInt start :: more := by
+    unfold wsSplit fmt9
+    simp only [List.append_assoc]
+    rw [wsSplitGo_blanks]
+    rcases h2 with rfl | h2
+    · exact ⟨[], by simpa using wsSplitGo_last (showInt start) hns [] (Or.inr (showInt_ne_nil start))⟩
+    · obtain ⟨r', rfl⟩ : ∃ r', rest = ' ' :: r' := by
+        cases rest with
+        | nil => simp at h2
+        | cons a r' => simp at h2; exact ⟨r', by rw [h2]⟩
+      exact ⟨_, by simpa using wsSplitGo_tok (showInt start) hns [] r' (Or.inr (showInt_ne_nil start))⟩
+  obtain ⟨more, hm⟩ := htok
+  simp only [originStart, hm, readInt_showInt]
+
+/-! ## feature = key column + location + qualifiers -/
+
+def locAllChars : List Char := locPSChars ++ ['j', 'i', ',']
+
+theorem locAllChars_ok : ∀ c ∈ locAllChars, isSpace c = false ∧ c ≠ '/' ∧ c ≠ '"' ∧ c ≠ '=' := by decide
+
+theorem intercalateC_chars (sep : Char) (xs : List Str) : ∀ c ∈ intercalateC sep xs, c = sep ∨ ∃ x ∈ xs, c ∈ x := by
+  induction xs with
+  | nil => intro c hc; simp [intercalateC] at hc
+  | cons x xs ih =>
+    intro c hc
+    cases xs with
+    | nil => simp only [intercalateC] at hc; exact Or.inr ⟨x, by simp, hc⟩
+    | cons y ys =>
+      simp only [intercalateC, List.mem_append, List.mem_cons] at hc
+      rcases hc with h | h | h
+      · exact Or.inr ⟨x, by simp, h⟩
+      · exact Or.inl h
+      · rcases ih c h with h | ⟨z, hz, hc⟩
+        · exact Or.inl h
+        · exact Or.inr ⟨z, by simp [hz], hc⟩
+
+theorem printLocs_chars (ls : List Loc) : ∀ c ∈ printLocs ls, c ∈ locAllChars := by
+  have hps : ∀ l : Loc, ∀ c ∈ printSingle l, c ∈ locAllChars := fun l c hc => by
+    have := printSingle_chars l c hc
+    simp only [locAllChars, List.mem_append]; exact Or.inl this
+  have hjoin : ∀ xs : List Loc, ∀ c ∈ "join(".toList ++ intercalateC ',' (xs.map printSingle) ++ [')'], c ∈ locAllChars := by
+    intro xs c hc
+    simp only [List.mem_append, List.mem_singleton] at hc
+    rcases hc with (h | h) | h
+    · have : ∀ c ∈ "join(".toList, c ∈ locAllChars := by decide
+      exact this c h
+    · rcases intercalateC_chars ',' _ c h with h | ⟨x, hx, hc⟩
+      · subst h; decide
+      · obtain ⟨l, _, rfl⟩ := List.mem_map.mp hx
+        exact hps l c hc
+    · subst h; decide
+  intro c hc
+  unfold printLocs at hc
+  split at hc
+  · exact hps _ c hc
+  · exact hjoin _ c hc
+
+theorem printLocs_ne_nil (ls : List Loc) : printLocs ls ≠ [] := by
+  unfold printLocs
+  split
+  · exact printSingle_ne_nil _
+  · simp
+
+theorem printLocs_locStrOk (ls : List Loc) : LocStrOk (printLocs ls) := by
+  have hc := printLocs_chars ls
+  refine ⟨printLocs_ne_nil ls, ?_, ?_, ?_⟩
+  · intro c h
+    have : c ∈ printLocs ls := by
+      cases hp : printLocs ls with
+      | nil => rw [hp] at h; simp at h
+      | cons a t => rw [hp] at h; simp at h; subst h; simp
+    exact (locAllChars_ok c (hc c this)).1
+  · intro c h; exact (locAllChars_ok c (hc c (List.mem_of_getLast? h))).1
+  · intro c h
+    have := locAllChars_ok c (hc c h)
+    exact ⟨this.2.1, this.2.2.1, this.2.2.2⟩
+
+structure GbFeatOk (f : GbFeat) : Prop where
+  locs_ne : f.locs ≠ []
+  locs_ok : ∀ l ∈ f.locs, Expressible l
+  keys_ok : ∀ q ∈ f.quals, QKeyOk q.1
+  vals_ok : ∀ q ∈ f.quals, ∀ v, q.2 = some v → QValOk v
+  keys_nodup : (f.quals.map (·.1)).Nodup
+
+/-- location + qualifiers of one feature: the accumulated text is parsed back to the same location
+list and the same qualifiers -/
+theorem feature_value_roundtrip (f : GbFeat) (h : GbFeatOk f) :
+    parseFeatVal (featValue (printLocs f.locs) f.quals) = .ok (printLocs f.locs, f.quals) ∧
+    parseLocs (printLocs f.locs) = some f.locs :=
+  ⟨qualifiers_roundtrip _ (printLocs_locStrOk f.locs) f.quals h.keys_ok h.vals_ok h.keys_nodup,
+   parseLocs_printLocs f.locs h.locs_ne h.locs_ok⟩
+
+/-! ## the key column and the feature list (line level) -/
+
+/-- feature key as the 15-character key column can hold it -/
+def FeatKeyOk (k : Str) : Prop :=
+  k ≠ [] ∧ k.length ≤ 15 ∧ (∀ c, k.head? = some c → isSpace c = false) ∧ (∀ c, k.getLast? = some c → isSpace c = false)
+
+theorem featCollect_qlines (qs : List Str) (rest : List Str) : ∀ (k v : Str),
+    featCollect (some (k, v)) (qs.map (fun l => List.replicate 21 ' ' ++ l) ++ rest) =
+      featCollect (some (k, v ++ qs.flatMap (fun l => l ++ [' ']))) rest := by
+  induction qs with
+  | nil => intro k v; simp
+  | cons q qs ih =>
+    intro k v
+    have h5 : (List.replicate 21 ' ' ++ q)[5]? = some ' ' := by
+      rw [List.getElem?_append_left (by simp)]; simp
+    have hd : (List.replicate 21 ' ' ++ q).drop 21 = q := List.drop_left' (by simp)
+    simp only [List.map_cons, List.cons_append, featCollect, h5, ne_eq, not_true_eq_false, if_false, hd]
+    rw [ih]; simp
+
+theorem ljust16 (key : Str) (h : key.length ≤ 15) :
+    ljust 16 key = (key ++ List.replicate (15 - key.length) ' ') ++ [' '] := by
+  unfold ljust
+  have : 16 - key.length = (15 - key.length) + 1 := by omega
+  rw [this, List.replicate_succ']; simp
+
+theorem featCollect_block (key loc : Str) (quals : List Qual) (hk : FeatKeyOk key) (rest : List Str)
+    (cur : Option (Str × Str)) :
+    featCollect cur (featLines key loc quals ++ rest) =
+      match featCollect (some (key, featValue loc quals)) rest with
+      | .ok r => .ok (cur.toList ++ r)
+      | .error e => .error e := by
+  obtain ⟨hne, hlen, hh, hl⟩ := hk
+  obtain ⟨a, t, rfl⟩ := List.exists_cons_of_ne_nil hne
+  have ha : a ≠ ' ' := gb_space_of_blank a (hh a rfl)
+  let P := (a :: t) ++ List.replicate (15 - (a :: t).length) ' '
+  have hP : P.length = 15 := by simp [P]; simp at hlen; omega
+  have e0 : List.replicate 5 ' ' ++ ljust 16 (a :: t) ++ loc = List.replicate 5 ' ' ++ (P ++ ' ' :: loc) := by
+    rw [ljust16 _ hlen]; simp [P]
+  have h5 : (List.replicate 5 ' ' ++ (P ++ ' ' :: loc))[5]? = some a := by
+    rw [List.getElem?_append_right (by simp)]; simp [P]
+  have hs : sliceL (List.replicate 5 ' ' ++ (P ++ ' ' :: loc)) 5 20 = P := by
+    unfold sliceL
+    have : List.replicate 5 ' ' ++ (P ++ ' ' :: loc) = (List.replicate 5 ' ' ++ P) ++ ' ' :: loc := by simp
+    rw [this, List.take_left' (by simp [hP]), List.drop_left' (by simp)]
+  have hd : (List.replicate 5 ' ' ++ (P ++ ' ' :: loc)).drop 21 = loc := by
+    have : List.replicate 5 ' ' ++ (P ++ ' ' :: loc) = (List.replicate 5 ' ' ++ P ++ [' ']) ++ loc := by simp
+    rw [this, List.drop_left' (by simp [hP])]
+  have hst : strip P = a :: t := gb_strip_padded (a :: t) _ hh hl (by simp)
+  unfold featLines
+  rw [e0]
+  simp only [List.cons_append, featCollect, h5, ne_eq, ha, not_false_eq_true, if_true, hs, hst, hd]
+  rw [featCollect_qlines]
+  have : loc ++ [' '] ++ (quals.flatMap qualLines).flatMap (fun l => l ++ [' ']) = featValue loc quals := by
+    simp [featValue]
+  rw [this]
+  rfl
+
+theorem featCollect_print (fs : List GbFeat) (hk : ∀ f ∈ fs, FeatKeyOk f.key) : ∀ cur : Option (Str × Str),
+    featCollect cur (printFeatures fs) =
+      .ok (cur.toList ++ fs.map (fun f => (f.key, featValue (printLocs f.locs) f.quals))) := by
+  induction fs with
+  | nil => intro cur; simp [printFeatures, featCollect]
+  | cons f fs ih =>
+    intro cur
+    have : printFeatures (f :: fs) = featLines f.key (printLocs f.locs) f.quals ++ printFeatures fs := by
+      simp [printFeatures]
+    rw [this, featCollect_block _ _ _ (hk f (by simp)), ih (fun x hx => hk x (by simp [hx]))]
+    simp
+
+theorem parseFeatVal_split (v loc : Str) (d : List Qual) (h : parseFeatVal v = .ok (loc, d)) :
+    ∃ ps, featParts v = .ok (loc, ps) ∧ partsGo [] none ps = .ok d := by
+  unfold parseFeatVal at h
+  cases hf : featParts v with
+  | error e => rw [hf] at h; cases h
+  | ok r =>
+    obtain ⟨l, ps⟩ := r
+    rw [hf] at h
+    simp only at h
+    cases hp : partsGo [] none ps with
+    | error e => rw [hp] at h; cases h
+    | ok d' =>
+      rw [hp] at h
+      injection h with h
+      injection h with h1 h2
+      subst h1; subst h2
+      exact ⟨ps, rfl, hp⟩
+
+/-- **feature table round trip**: key column + location + qualifiers, for a list of features,
+order kept. -/
+theorem feature_roundtrip (fs : List GbFeat) (hk : ∀ f ∈ fs, FeatKeyOk f.key) (hf : ∀ f ∈ fs, GbFeatOk f) :
+    parseFeatures (printFeatures fs) = .ok fs := by
+  unfold parseFeatures
+  rw [featCollect_print fs hk none]
+  simp only [Option.toList_none, List.nil_append]
+  suffices H : ∀ (gs : List GbFeat) (acc : List GbFeat), (∀ f ∈ gs, GbFeatOk f) →
+      (gs.map (fun f => (f.key, featValue (printLocs f.locs) f.quals))).foldlM featStep acc =
+        (.ok (acc ++ gs) : Except Err (List GbFeat)) by
+    simpa using H fs [] hf
+  intro gs
+  induction gs with
+  | nil => intro acc _; simp [pure, Except.pure]
+  | cons g gs ih =>
+    intro acc hg
+    obtain ⟨h1, h2⟩ := feature_value_roundtrip g (hg g (by simp))
+    obtain ⟨ps, hp1, hp2⟩ := parseFeatVal_split _ _ _ h1
+    rw [List.map_cons, List.foldlM_cons]
+    simp only [featStep, hp1, h2, hp2, bind, Except.bind]
+    rw [ih (acc ++ [g]) (fun x hx => hg x (by simp [hx]))]
+    simp
+
 end BiotiteModel.C12
